@@ -173,3 +173,25 @@ func RPair(int) ([]byte, error) { return origBytes, origErr }
 
 //go:noinline
 func PPair([]byte, error) int { return -1 }
+
+// W1 has exactly one pointer-shaped field: reflect stores such a struct directly in the
+// interface word (not behind a pointer), which stand-in conversion must respect.
+type W1 struct{ P *S }
+
+// W1m has exactly one map field.
+type W1m struct{ M map[string]int }
+
+var origW1 = W1{P: &S{A: -1}}
+var origW1m = W1m{M: map[string]int{"orig": -1}}
+
+//go:noinline
+func RW1(int) W1 { return origW1 }
+
+//go:noinline
+func PW1(W1) int { return -1 }
+
+//go:noinline
+func RW1m(int) W1m { return origW1m }
+
+//go:noinline
+func PW1m(W1m) int { return -1 }
